@@ -140,6 +140,8 @@ def roots(tier, seed):
     # (F) malformed arguments
     for name in MALFORMED:
         out.append({"malformed": name, "n": 2})
+    from .. import cover
+    out += cover.roots_for(tier, explore_thorough=1)
     return alpha.permute(out, seed)
 
 
